@@ -1,6 +1,6 @@
 (** robotools/evotools/commands.py: selection bitmap and EVOware script commands;
     EvoWorklist.evo_aspirate / evo_dispense / evo_wash wrappers. *)
-From Robo Require Import Prelude Str Wells Utils Labware Tips Records Params Worklist.
+From Robo Require Import Prelude Str Wells Utils Labware Tips Records Partition Params Worklist.
 #[local] Open Scope string_scope.
 
 (* ------------------------------------------------------------------ selection string *)
@@ -71,8 +71,18 @@ Definition cmd_tip_value (e : tipelem) : option Z :=
   match e with
   | TInt z => match int_to_tip z with Some b => Some (Z.of_N (bit b)) | None => None end
   | TTip n => if ((1 <=? n) && (n <=? 8))%nat then Some (Z.of_N (bit (n - 1))) else None
-  | TAny => Some (-1)%Z
+  | TAny => None
   | TOther => None
+  end.
+Fixpoint strictly_ascending_Z (l : list Z) : bool :=
+  match l with
+  | a :: ((b :: _) as r) => (a <? b)%Z && strictly_ascending_Z r
+  | _ => true
+  end.
+Fixpoint strictly_ascending_str (l : list string) : bool :=
+  match l with
+  | a :: ((b :: _) as r) => negb (Partition.str_leb b a) && strictly_ascending_str r
+  | _ => true
   end.
 Fixpoint cmd_tip_values (l : list tipelem) : option (list Z) :=
   match l with
@@ -107,6 +117,7 @@ Fixpoint slots_ok (tipvs : list Z) (given : list Z) (nvols : nat) : bool :=
 Definition evo_command (kind : string) (n_rows n_cols : nat) (a : cmdargs) (max_volume : Q) : res string :=
   let wells := flattenF (c_wells a) in
   if negb (length wells =? length (c_tips a))%nat then Err EReject else
+  if negb (strictly_ascending_str wells) then Err EReject else
   match check_range (c_grid a) 1 67, check_range (c_site a) 1 128 with
   | Some grid, Some site =>
       let vols := match c_volume a with
@@ -125,6 +136,7 @@ Definition evo_command (kind : string) (n_rows n_cols : nat) (a : cmdargs) (max_
       | Ok qs =>
           match text_ok false (c_liquid_class a), cmd_tip_values (c_tips a) with
           | Some lc, Some tvs =>
+              if negb (strictly_ascending_Z tvs) then Err EReject else
               if negb ((c_arm a =? 0) || (c_arm a =? 1))%Z then Err EReject else
               if negb (slots_ok eight tvs (length qs)) then Err EReject else
               match selection_array n_rows n_cols wells with
@@ -213,13 +225,12 @@ Definition wash_vol (v : pyfi) : option string :=
   | _ => None
   end.
 
-(** the wash command converts ints with int_to_tip and passes everything else through unchecked *)
-Definition wash_tip_value (e : tipelem) : option Z :=
-  match e with
-  | TInt z => match int_to_tip z with Some b => Some (Z.of_N (bit b)) | None => None end
-  | TTip n => Some (Z.of_N (bit (n - 1)))
-  | TAny => Some (-1)%Z
-  | TOther => None
+(** the wash command accepts ints 1..8 and Tip members other than Tip.Any *)
+Definition wash_tip_value (e : tipelem) : option Z := cmd_tip_value e.
+Fixpoint dedup_Z (l : list Z) : list Z :=
+  match l with
+  | [] => []
+  | x :: r => if existsb (Z.eqb x) r then dedup_Z r else x :: dedup_Z r
   end.
 Fixpoint wash_tip_values (l : list tipelem) : option (list Z) :=
   match l with
@@ -243,7 +254,7 @@ Definition evo_wash_cmd (a : washargs) : res string :=
                 check_range (wa_retract_speed a) 1 100, check_range (wa_fastwash a) 0 1,
                 check_range (wa_low_volume a) 0 1 with
           | Some ag, Some ags, Some rs, Some fw, Some lv =>
-              Ok ("B;Wash(" ++ decZ (fold_right Z.add 0%Z tvs) ++ "," ++ decZ wg ++ "," ++ decZ (wsite - 1)
+              Ok ("B;Wash(" ++ decZ (fold_right Z.add 0%Z (dedup_Z tvs)) ++ "," ++ decZ wg ++ "," ++ decZ (wsite - 1)
                   ++ "," ++ decZ cg ++ "," ++ decZ (csite - 1) ++ ",""" ++ wv ++ """," ++ decZ wd
                   ++ ",""" ++ cv ++ """," ++ decZ cd ++ "," ++ decZ ag ++ "," ++ decZ ags ++ ","
                   ++ decZ rs ++ "," ++ decZ fw ++ "," ++ decZ lv ++ ",1000," ++ decZ (wa_arm a) ++ ");")
